@@ -19,7 +19,7 @@ CHECKS = {
    ref="DESIGN.md 4/C09"),
  "C13": dict(
    technique="exhaustive sweep (type x specification x ordered specification pairs) + proptest over table definitions followed by ALTER / INDEX / RENAME / DROP histories; oracle = reference catalogue model updated from the spec versus the real SQLite engine's catalogue (PRAGMAs, sqlite_master, probing inserts, typeof affinity probes)",
-   text="Exploration: an exhaustive sweep of 7 135 single-table definitions (every supported ColumnType x each specification x every ordered pair) plus 8 000 (quick) / 240 000 (thorough) random schema histories; after every statement the engine's catalogue must report exactly the declared objects (columns, nullability, defaults, keys, autoincrement, checks, indexes with direction / uniqueness / partial predicate, foreign keys with actions) and each type name must carry the intended storage affinity.",
+   text="Exploration: an exhaustive sweep of 7 135 single-table definitions (every supported ColumnType x each specification x every ordered pair) plus 8 000 (quick) / 240 000 (thorough) random schema histories; after every statement the engine's catalogue must report exactly the declared objects (columns, nullability, defaults, keys, autoincrement, checks, indexes with direction / uniqueness / partial predicate, foreign keys with actions) and each type name must carry the intended storage affinity. Plus table-level extra options (WITHOUT ROWID / STRICT) against pragma_table_list.",
    note="Engine = system SQLite 3.40.1. Two engine facts are encoded as domain restrictions (listed in the evidence). Generated columns, WITHOUT ROWID / STRICT, compound default expressions and populated tables are out of scope.",
    ref="DESIGN.md 4/C13"),
  "C14": dict(
@@ -29,7 +29,7 @@ CHECKS = {
    ref="DESIGN.md 4/C14"),
  "C07": dict(
    technique="proptest over executable statement specs; oracle = differential execution on the real SQLite engine against an independent, fully explicit reference rendering of the same spec (three runs per case: reference, inline, bound), rows and table contents compared",
-   text="Exploration: 40 000 (quick) / 1 200 000 (thorough) generated SELECT / INSERT / UPDATE / DELETE statements over a fixed four-table database, normalised by construction into the SQLite-valid, deterministic domain; each is executed as reference SQL, as to_string output and as build output with bound values on fresh copies of the database; results (sequences when ordered, multisets otherwise), RETURNING rows and table snapshots must agree; run-time failures must agree too.",
+   text="Exploration: 40 000 (quick) / 1 200 000 (thorough) generated SELECT / INSERT / UPDATE / DELETE statements over a fixed four-table database, normalised by construction into the SQLite-valid, deterministic domain; each is executed as reference SQL, as to_string output and as build output with bound values on fresh copies of the database; results (sequences when ordered, multisets otherwise), RETURNING rows and table snapshots must agree; run-time failures must agree too. Also: self-referencing recursive CTEs in one terminating shape, derived and explicit CTE column lists, float values in arithmetic (part float-values).",
    note="Oracle executor = system SQLite 3.40.1; reference renderer = stmt_ref.rs (shares nothing with sea-query). Engine-imposed determinism constraints are built into the generator (stmt_gen::fix_exec) and listed in the evidence; one SQLite 3.40.1 defect (RIGHT / FULL JOIN after a constant-false ON) is kept out of the domain. Also carries C02's engine clause (inline vs bound).",
    ref="DESIGN.md 4/C07"),
  "C11": dict(
@@ -44,7 +44,7 @@ CHECKS = {
    ref="DESIGN.md 4/C15"),
  "C01": dict(
    technique="proptest over structured statement specs (nesting via subqueries, set operations, CTEs); oracle = independent dialect lexer (placeholder count / form / numbering) + independent reading-order model of bound values over uniquely tagged values",
-   text="Exploration: 200 000 (quick) / 4 000 000 (thorough) generated SELECT / INSERT / UPDATE / DELETE statements per run across the three backends, with every bound value re-tagged uniquely; the placeholders found by the harness's lexer must match the returned values in number and form, and the returned value sequence must equal the sequence an independent traversal of the spec predicts for that dialect's clause order. All build entry points must agree.",
+   text="Exploration: 200 000 (quick) / 4 000 000 (thorough) generated SELECT / INSERT / UPDATE / DELETE statements per run across the three backends, with every bound value re-tagged uniquely; the placeholders found by the harness's lexer must match the returned values in number and form, and the returned value sequence must equal the sequence an independent traversal of the spec predicts for that dialect's clause order. All build entry points must agree. Plus one statement with exactly k bound values for every k up to 2200 (quick) / 12000 (thorough) per backend. The statement interpreter chooses among equivalent public entry points, call orders and builder finishers by generated selectors.",
    note="The reading-order model (stmt_params.rs) is transcribed from the engines' grammars; documented repetitions (MySQL NULLS emulation, ORDER BY FIELD) are modelled with their multiplicity. WithQuery wrapper statements are exercised through with_cte on each statement kind.",
    ref="DESIGN.md 4/C01"),
  "C02": dict(
@@ -64,12 +64,12 @@ CHECKS = {
    ref="DESIGN.md 4/C19"),
  "C06": dict(
    technique="bounded-exhaustive condition trees and call pairs + proptest call histories; oracle = reference three-valued evaluator over the spec, compared on all 256 assignments with the SQLite engine and with the evaluation of the predicate as parsed by the MySQL / Postgres grammar transcriptions",
-   text="Exploration: every condition tree of depth <= 1 (width <= 3), every depth-2 group of width <= 2 over the depth-1 trees, every pair of condition-adding calls over small trees, and random histories of up to 4 calls with trees up to depth 3, at six sites (SELECT WHERE / HAVING, UPDATE, DELETE, JOIN ON, CASE WHEN), in both parenthesis configurations. Each case is decided on all three-valued assignments of four columns (256 rows): SQLite by the engine (row sets and, for WHERE, the predicate's truth value incl. NULL vs FALSE), MySQL / Postgres by evaluating the parsed predicate.",
+   text="Exploration: every condition tree of depth <= 1 (width <= 3), every depth-2 group of width <= 2 over the depth-1 trees, every pair of condition-adding calls over small trees, and random histories of up to 4 calls with trees up to depth 3, at six sites (SELECT WHERE / HAVING, UPDATE, DELETE, JOIN ON, CASE WHEN), in both parenthesis configurations. Each case is decided on all three-valued assignments of four columns (256 rows): SQLite by the engine (row sets and, for WHERE, the predicate's truth value incl. NULL vs FALSE), MySQL / Postgres by evaluating the parsed predicate. Ten sites as of the last revision (also partial-index predicates and ON CONFLICT target / action predicates); atoms include two raw SQL fragments; groups may be negated repeatedly.",
    note="Atoms are ten fixed boolean expressions whose reference semantics are written in Rust; MySQL / Postgres verdicts rest on the harness's grammar transcriptions (parse.rs).",
    ref="DESIGN.md 4/C06"),
  "C05": dict(
    technique="exhaustive depth-2 operator matrix + proptest random trees; oracle = grammar-faithful expression parsers per engine (tree equality) and differential evaluation on the SQLite engine against a fully parenthesised reference rendering",
-   text="Exploration: the complete depth-2 matrix (outer operator kind x operand position x inner operator kind, per backend) and random expression trees up to depth 4 (quick) / 6 (thorough), in both rendering modes and in both parenthesis configurations (default and option-more-parentheses). The rendering is parsed with an independent transcription of each engine's expression grammar and must give back the tree that was built; SQLite renderings are also evaluated by the real engine over 125 rows against an explicit reference.",
+   text="Exploration: the complete depth-2 matrix (outer operator kind x operand position x inner operator kind, per backend) and random expression trees up to depth 4 (quick) / 6 (thorough), in both rendering modes and in both parenthesis configurations (default and option-more-parentheses). The rendering is parsed with an independent transcription of each engine's expression grammar and must give back the tree that was built; SQLite renderings are also evaluated by the real engine over 125 rows against an explicit reference. Plus left-deep chains of one operator of every length up to 80 (quick) / 300 (thorough) with a same-operator group as one right operand.",
    note="MySQL (sql_yacc.yy layering), Postgres (gram.y precedence, a_expr/b_expr) and SQLite (parse.y) grammars are transcribed by hand; constructs where the transcription is uncertain are counted as undecided, never reported. The SQLite transcription is cross-checked by the engine differential.",
    ref="DESIGN.md 4/C05"),
  "C18": dict(
@@ -89,12 +89,12 @@ CHECKS = {
    ref="DESIGN.md 4/C10"),
  "C04": dict(
    technique="bounded-exhaustive + proptest names at 73 identifier positions; oracle = independent dialect lexers (differential token-stream comparison against a benign reference name) + SQLite catalogue read-back",
-   text="Exploration: every non-empty name over {a \" ` ' \\ . space $ é} up to length 2 (quick) / 3 (thorough) at each of 73 identifier positions of query and schema statements on each backend that supports the position, plus random Unicode names. The rendered statement must lex, under the engine's rules, to the reference token stream with exactly the expected identifier token(s) decoding to the supplied name; on SQLite table / column / index / alias names are read back from the engine. The thorough tier adds a coverage-guided libFuzzer campaign (cargo-fuzz, 8 processes of fixed -runs) through the same oracle; its executions, edge coverage and samples are folded into the evidence file (coverage.fuzz_campaigns).",
+   text="Exploration: every non-empty name over {a \" ` ' \\ . space $ é} up to length 2 (quick) / 3 (thorough) at each of 73 identifier positions of query and schema statements on each backend that supports the position, plus random Unicode names. The rendered statement must lex, under the engine's rules, to the reference token stream with exactly the expected identifier token(s) decoding to the supplied name; on SQLite table / column / index / alias names are read back from the engine. The thorough tier adds a coverage-guided libFuzzer campaign (cargo-fuzz, 8 processes of fixed -runs) through the same oracle; its executions, edge coverage and samples are folded into the evidence file (coverage.fuzz_campaigns). 94 positions as of the last revision (SEARCH / CYCLE names, aliased schema.table forms, qualified tables in schema statements, ...), plus names of every length up to 400 (quick) / 2000 (thorough).",
    note="MySQL backtick and Postgres double-quote identifier rules are transcribed from the manuals; unquoted-by-design positions (Func::cust, Keyword::Custom, ColumnType::Custom) are out of scope; the derive fast path is covered by C19.",
    ref="DESIGN.md 4/C04"),
  "C03": dict(
    technique="bounded-exhaustive + proptest payloads at every inlining position; oracle = independent dialect lexers/decoders (differential token-stream comparison against a benign reference payload) + SQLite engine read-back",
-   text="Exploration: every string over a 12/13-symbol quoting-relevant alphabet up to length 3 (quick) / 4 (thorough) at every text position of each backend, every char up to U+2FFF (quick) / all chars (thorough), all byte strings of length <= 2, and random Unicode text / chars / byte strings. The rendered statement must lex, under the engine's lexical rules, to the same token stream as a benign reference rendering with exactly one literal token whose decoded content equals the payload; SQLite literals are also read back through the real engine. The thorough tier adds a coverage-guided libFuzzer campaign (cargo-fuzz, 8 processes of fixed -runs) through the same oracle; its executions, edge coverage and samples are folded into the evidence file (coverage.fuzz_campaigns).",
+   text="Exploration: every string over a 12/13-symbol quoting-relevant alphabet up to length 3 (quick) / 4 (thorough) at every text position of each backend, every char up to U+2FFF (quick) / all chars (thorough), all byte strings of length <= 2, and random Unicode text / chars / byte strings. The rendered statement must lex, under the engine's lexical rules, to the same token stream as a benign reference rendering with exactly one literal token whose decoded content equals the payload; SQLite literals are also read back through the real engine. The thorough tier adds a coverage-guided libFuzzer campaign (cargo-fuzz, 8 processes of fixed -runs) through the same oracle; its executions, edge coverage and samples are folded into the evidence file (coverage.fuzz_campaigns). Plus one byte string and one text of every length up to 1200 (quick) / 6000 (thorough) per backend (22 positions).",
    note="MySQL (default sql_mode) and Postgres (standard_conforming_strings=on) lexical rules are transcribed from the manuals into the harness lexers; there is no MySQL/Postgres engine in the sandbox. SQLite 3.40.1 is the real engine.",
    ref="DESIGN.md 4/C03"),
  "C16": dict(
@@ -140,7 +140,9 @@ def main():
             "add_only": True,
         },
         "engines": [{"name": "sqv", "path": "/verif/harness", "serves_properties": [c["property_id"] for c in checks],
-                     "kind_free_text": "Rust harness crate: proptest strategies + bounded-exhaustive enumerators driving sea-query's public API against independent oracles (dialect lexers/parsers, reference models, the system SQLite engine)"}],
+                     "kind_free_text": "Rust harness crate: proptest strategies + bounded-exhaustive enumerators driving sea-query's public API against independent oracles (dialect lexers/parsers, reference models, the system SQLite engine)"},
+                    {"name": "sqv-fuzz", "path": "/verif/fuzz", "serves_properties": ["C03", "C04", "C11", "C16", "C17"],
+                     "kind_free_text": "cargo-fuzz crate with one libFuzzer binary (target multi; SQV_FUZZ_TARGET selects lit / ident / tmpl / tok / esc from harness/src/fuzzdec.rs); run by the thorough tiers through tools/fuzz_campaign.py after the harness run"}],
         "checks": checks,
         "notes": "Every check: ./check <ID> [--tier quick|thorough] [--replay file]; VERIF_SEED selects the PRNG stream; exit 0 held / 1 VIOLATION / 2 inconclusive. Known findings: KNOWN_FINDINGS.txt.",
         "not_applicable": na,
